@@ -26,6 +26,9 @@ struct Src {
     text: String,
     line_starts: Vec<usize>,
     file: syn::File,
+    /// rule R10: `fn` items found in the argument-less arm `() => { ... }` of the file's
+    /// `macro_rules!` definitions (macro name, item); spans point into the file text
+    macro_fns: Vec<(String, syn::ImplItemFn)>,
 }
 
 impl Src {
@@ -45,7 +48,9 @@ impl Src {
                 line_starts.push(i + 1);
             }
         }
-        Src { rel: rel.to_string(), text, line_starts, file }
+        let mut macro_fns = vec![];
+        collect_macro_fns(&file.items, &mut macro_fns);
+        Src { rel: rel.to_string(), text, line_starts, file, macro_fns }
     }
     fn off(&self, lc: LineColumn) -> usize {
         let ls = self.line_starts[lc.line - 1];
@@ -74,6 +79,58 @@ impl Src {
     }
     fn slice(&self, r: (usize, usize)) -> &str {
         &self.text[r.0..r.1]
+    }
+}
+
+/// R10: a `macro_rules! name { () => { fn ... } }` arm without parameters expands to its body verbatim
+/// wherever `name!();` is written; the `fn` items of such arms can be extracted like methods.
+fn collect_macro_fns(items: &[syn::Item], out: &mut Vec<(String, syn::ImplItemFn)>) {
+    use proc_macro2::{Delimiter, TokenTree};
+    use syn::parse::Parser;
+    for it in items {
+        match it {
+            syn::Item::Macro(m) if m.mac.path.is_ident("macro_rules") => {
+                let name = match &m.ident {
+                    Some(i) => i.to_string(),
+                    None => continue,
+                };
+                let toks: Vec<TokenTree> = m.mac.tokens.clone().into_iter().collect();
+                let mut k = 0;
+                while k + 3 < toks.len() + 1 && k + 3 <= toks.len() {
+                    // ( ) = > { body }
+                    let is_arm = matches!(&toks[k], TokenTree::Group(g) if g.delimiter() == Delimiter::Parenthesis && g.stream().is_empty())
+                        && matches!(&toks[k + 1], TokenTree::Punct(p) if p.as_char() == '=')
+                        && matches!(&toks[k + 2], TokenTree::Punct(p) if p.as_char() == '>');
+                    if is_arm && k + 3 < toks.len() {
+                        if let TokenTree::Group(g) = &toks[k + 3] {
+                            if g.delimiter() == Delimiter::Brace {
+                                let parser = |input: syn::parse::ParseStream| -> syn::Result<Vec<syn::ImplItem>> {
+                                    let mut v = vec![];
+                                    while !input.is_empty() {
+                                        v.push(input.parse::<syn::ImplItem>()?);
+                                    }
+                                    Ok(v)
+                                };
+                                if let Ok(v) = parser.parse2(g.stream()) {
+                                    for ii in v {
+                                        if let syn::ImplItem::Fn(f) = ii {
+                                            out.push((name.clone(), f));
+                                        }
+                                    }
+                                }
+                            }
+                        }
+                    }
+                    k += 1;
+                }
+            }
+            syn::Item::Mod(m) => {
+                if let Some((_, its)) = &m.content {
+                    collect_macro_fns(its, out);
+                }
+            }
+            _ => {}
+        }
     }
 }
 
@@ -201,6 +258,8 @@ struct FnDir {
     safety: Option<String>,
     imported_from: Option<String>,
     fmt_interp: bool,
+    /// R10: the Self type the macro-defined fn is instantiated for (a type of the unit)
+    for_type: Option<String>,
 }
 
 #[derive(Default, Debug, Clone)]
@@ -235,6 +294,9 @@ enum Piece {
     Prelude(String, usize, String),
     Struct(usize, String),
     Func(FnDir),
+    /// `//@ expect <file> "<text>"`: the (whitespace-normalised) text must occur in the file, else the
+    /// anchor is lost (structural facts a contract relies on, e.g. that an impl invokes a macro)
+    Expect(usize, String, String),
 }
 
 fn parse_clause_lines(lines: &[(usize, String)]) -> Vec<Clause> {
@@ -309,6 +371,12 @@ fn parse_unit(path: &str) -> (Vec<Piece>, Vec<(String, String)>) {
                 i += 1;
                 continue;
             }
+            if let Some(a) = rest.strip_prefix("expect ") {
+                let (f, t) = a.trim().split_once(' ').unwrap_or_else(|| bail!("line {}: expect <file> \"text\"", i + 1));
+                pieces.push(Piece::Expect(i + 1, f.trim().to_string(), t.trim().trim_matches('"').to_string()));
+                i += 1;
+                continue;
+            }
             if let Some(a) = rest.strip_prefix("bound-map ") {
                 let (o, n) = parse_arrow(a, i + 1);
                 bound_map.push((o, n));
@@ -354,6 +422,9 @@ fn parse_unit(path: &str) -> (Vec<Piece>, Vec<(String, String)>) {
                             section.clear();
                         } else if let Some(a) = section.strip_prefix("safety ") {
                             fd.safety = Some(a.trim().trim_start_matches('[').trim_end_matches(']').to_string());
+                            section.clear();
+                        } else if let Some(a) = section.strip_prefix("for-type ") {
+                            fd.for_type = Some(a.trim().to_string());
                             section.clear();
                         } else if section == "fmt-interp" {
                             fd.fmt_interp = true;
@@ -441,6 +512,8 @@ enum Found<'a> {
     Free(&'a syn::ItemFn),
     Method(&'a syn::ItemImpl, &'a syn::ImplItemFn),
     TraitDefault(&'a syn::ItemTrait, &'a syn::TraitItemFn),
+    /// R10: fn defined in the parameterless arm of a macro_rules! definition
+    MacroFn(&'a syn::ImplItemFn),
 }
 
 fn type_last_ident(t: &syn::Type) -> Option<String> {
@@ -472,6 +545,18 @@ fn cfg_verdict(attrs: &[syn::Attribute]) -> Option<bool> {
 
 fn find_fn<'a>(src: &'a Src, segs: &[&str]) -> Found<'a> {
     let mut hits: Vec<Found<'a>> = vec![];
+    if segs.len() == 2 && segs[0].starts_with("macro!") {
+        let mname = &segs[0]["macro!".len()..];
+        for (n, f) in &src.macro_fns {
+            if n == mname && f.sig.ident == segs[1] {
+                hits.push(Found::MacroFn(f));
+            }
+        }
+        if hits.len() != 1 {
+            bail!("lost anchor: {}::{} resolves to {} items", src.rel, segs.join("::"), hits.len());
+        }
+        return hits.pop().unwrap();
+    }
     fn walk<'a>(items: &'a [syn::Item], segs: &[&str], hits: &mut Vec<Found<'a>>) {
         for it in items {
             match it {
@@ -1150,6 +1235,7 @@ fn main() {
     let mut srcs: HashMap<String, Src> = HashMap::new();
     let mut out = Out { text: String::new(), marks: vec![], log: vec![], next_id: 0 };
     let mut functions: Vec<Value> = vec![];
+    let mut expects: Vec<Value> = vec![];
     let mut clauses_json: Vec<Value> = vec![];
 
     let mut emitted: std::collections::HashSet<String> = std::collections::HashSet::new();
@@ -1178,6 +1264,13 @@ fn main() {
                 let (file, path) = anchor.split_once("::").unwrap_or_else(|| bail!("line {}: bad anchor {}", ln, anchor));
                 let src = srcs.entry(file.to_string()).or_insert_with(|| Src::load(root, file));
                 emit_struct(src, path, &bound_map, &mut out, &mut functions);
+            }
+            Piece::Expect(ln, file, text) => {
+                let src = srcs.entry(file.to_string()).or_insert_with(|| Src::load(root, file));
+                if !norm_ws(&src.text).contains(&norm_ws(text)) {
+                    bail!("lost anchor in {}: expected text (unit line {}) not found: {}", file, ln, text);
+                }
+                expects.push(json!({"file": file, "text": text, "vrs_line": ln}));
             }
             Piece::Import(ln, ufile, anchor) => {
                 let saved = INCLUDED.with(|s| s.borrow().clone());
@@ -1250,6 +1343,7 @@ fn main() {
         "edits": out.log,
         "line_origin": line_origin,
         "bound_map": bound_map,
+        "expects": expects,
     });
     std::fs::write(out_manifest, serde_json::to_string(&manifest).unwrap()).unwrap();
 }
@@ -1417,6 +1511,10 @@ fn emit_fn(src: &Src, path: &str, fd: &FnDir, bm: &[(String, String)], unit: &st
             (&f.sig, &f.block, Some(&f.vis), Some(h))
         }
         Found::TraitDefault(_tr, f) => (&f.sig, f.default.as_ref().unwrap(), None, Some(String::from("trait-default"))),
+        Found::MacroFn(f) => {
+            let t = fd.for_type.clone().unwrap_or_else(|| bail!("unit line {}: a macro!.. anchor needs `//@ for-type <Type>`", fd.vrs_line));
+            (&f.sig, &f.block, Some(&f.vis), Some(format!("impl {}", t)))
+        }
     };
 
     let fn_start = match vis {
